@@ -63,6 +63,10 @@ func comparisonOperands(cond ssa.Value) (x, y ssa.Value, ok bool) {
 		}
 	case *ssa.BinOp:
 		if v.Op == token.EQL || v.Op == token.NEQ {
+			// comparing lengths is not comparing the values
+			if isLenCall(v.X) || isLenCall(v.Y) {
+				return nil, nil, false
+			}
 			return v.X, v.Y, true
 		}
 	}
@@ -243,7 +247,7 @@ func runC16(c *Check) {
 			onlyBlockID := sl.HasFieldNamed("Commit", "BlockID") && !sl.HasFieldNamed("Commit", "Signatures") && !sl.HasFieldNamed("Commit", "Round")
 			c.Ob("R16.2", "MsgID derives from the block id", onlyBlockID, p.Pos(r.Pos()), "the gossip id of a decodable message is commit.BlockID only (not signatures, which differ per validator view)")
 		}
-		c.Floor("R16.2", "non-fallback returns of MsgID", nMain, 1)
+		c.Ob("R16.2", "MsgID has a block-id return", nMain > 0, p.Pos(m.Pos()), "besides the fallback for undecodable messages (hash of the bytes) there is a return that derives from the decoded commit")
 	} else {
 		c.Unresolved("R16.2", "header.MsgID not found")
 	}
